@@ -129,6 +129,7 @@ func main() {
 	out := oracleRun(o, per, false)
 	writeJSON(filepath.Join(o.Out, "oracle.json"), out)
 	emitCases(o)
+	emitBCases(o)
 }
 
 func replay(o Opts) {
